@@ -27,7 +27,7 @@ from . import c14_units as SI
 PROP = "C14"
 LEAN_MODULE = "NixModel.Props.C14"
 THEOREMS = ["Nix.C14." + t for t in """
-C14_sound C14_objects C14_reports C14_validate C14_complete_NoType C14_complete_NoName C14_complete_NoDate
+C14_sound C14_silent_wellformed C14_sound_iff C14_objects C14_reports C14_validate C14_complete_NoType C14_complete_NoName C14_complete_NoDate
 C14_complete_NoID_check C14_entity_part C14_dim_message C14_complete_DimensionMismatch
 C14_complete_RangeDimTicksMismatch C14_complete_SetDimLabelsMismatch C14_complete_NoTicks C14_complete_UnsortedTicks
 C14_complete_InvalidDimensionUnit C14_complete_NoSamplingInterval C14_complete_InvalidSamplingInterval
@@ -35,7 +35,8 @@ C14_complete_DimensionIndex C14_complete_NoPosition C14_complete_PositionExtentM
 C14_complete_PositionDimensionMismatch C14_complete_ExtentDimensionMismatch C14_complete_ReferenceUnitsMismatch
 C14_complete_ReferenceUnitsIncompatible C14_complete_InvalidUnit C14_complete_feature C14_complete_NoPositions
 C14_complete_PositionsExtentsMismatch C14_complete_PositionsDimensionMismatch C14_complete_ExtentsDimensionMismatch
-C14_complete_mtag_units C14_complete_property C14_catalogue_distinct C14_catalogue_complete
+C14_complete_mtag_units C14_missing_positions_reported C14_unit_pair_atoms C14_unconvertible_atoms
+C14_complete_property C14_catalogue_distinct C14_catalogue_complete
 C14_complete_NoID_counterexample C14_complete_NoID_partial C14_emits_entity C14_emits_dims
 C14_emits_feature_property C14_emits_tags C14_emits_array C14_traversal_order
 """.split()]
@@ -53,6 +54,12 @@ ASSUMPTIONS = [
     "file object: 'date is not set' is `not created_at`, i.e. epoch 0 (a writable session always has the attribute)",
     "features linking a DataFrame are outside the model",
     "util.is_uuid(id) true implies the id is a non-empty string (hypothesis of C14_complete_NoID_partial)",
+    "a multi-tag without positions link has the inconsistency 'positions are not set' only: the two comparisons that "
+    "need the positions (against the extents, against the references' ranks) are not made",
+    "an empty extents array counts as no extents (nixio: `if mtag.extents`)",
+    "oracle units: atomic = [SI prefix] + unit symbol of the SI table + [^ signed integer]; convertible = same symbol "
+    "and same power; the same power spelled differently ('^+2'/'^2', ''/'^1'), text around a product of units and "
+    "products of units against each other are not decided by the property text (either verdict is accepted)",
 ]
 TRUSTED_EXTRA = ["harness/extract/validator.py renders the ValidationError catalogue (identifiers, texts, arities), the "
                  "identifiers each check function refers to, and the container order of check_file",
@@ -771,18 +778,15 @@ def _second(shape):
 def _mtag_expect(b, t, und):
     out = _ent_expect(t["x"])
     refs = [b["arrays"][i] for i in t["refs"]]
-    if t["unlink"]:
+    ps = None if t["unlink"] else b["arrays"][t["pos"]]["shape"]
+    if ps is None or ps[0] == 0:
         out.add(("NoPositions",))
-        return out | _units_expect(b, t, refs, und) | _feats_expect(b, t["feats"])
-    ps = b["arrays"][t["pos"]]["shape"]
-    if ps[0] == 0:
-        out.add(("NoPositions",))
-    if any(len(a["shape"]) != _second(ps) for a in refs):
+    if ps is not None and any(len(a["shape"]) != _second(ps) for a in refs):
         out.add(("PositionsDimensionMismatch",))
     if t["ext"] is not None:
         es = b["arrays"][t["ext"]]["shape"]
         if es[0] != 0:
-            if es != ps:
+            if ps is not None and es != ps:
                 out.add(("PositionsExtentsMismatch",))
             if any(len(a["shape"]) != _second(es) for a in refs):
                 out.add(("ExtentsDimensionMismatch",))
@@ -1461,13 +1465,15 @@ def _fmt(d):
 
 
 def _fixed_cases(ctx):
-    """repaired defects on a fixed base (independent of the seed): missing created_at on every kind of object"""
+    """repaired defects on a fixed base (independent of the seed): missing created_at on every kind of object, missing
+    positions link of a multi-tag"""
     import random
     rng = random.Random(14)
     out = []
     base = gen_recipe(rng, small=True)
     for inj in eligible(base, "property"):
-        if (inj[0] == "ent_del" and inj[3] == "created_at") or (inj[0] == "feat_del" and inj[-1] == "created_at"):
+        if ((inj[0] == "ent_del" and inj[3] == "created_at") or (inj[0] == "feat_del" and inj[-1] == "created_at")
+                or inj[0] == "mt_unlink_pos"):
             m = apply_inj(base, inj)
             if m is not None:
                 out.append(("fixed", m, [inj]))
@@ -1604,21 +1610,14 @@ def _deleted_ids(recipe):
     return n
 
 
-def _unlinked_positions(recipe):
-    return sum(1 for b in recipe["blocks"] for t in b["mtags"] if t["unlink"])
-
-
 def matches_known(entry, failure):
-    """narrow classes: validate() raises (a) ValueError because an entity / feature / property has no entity_id,
-    (b) RuntimeError because a multi-tag has no positions link"""
+    """narrow class: validate() raises ValueError because an entity / feature / property has no entity_id"""
     inp = failure.input
     if not (isinstance(inp, list) and len(inp) >= 2 and inp[0] == "recipe"):
         return False
     cls = entry.get("class")
     if cls == "missing-id-raises":
         return failure.what.startswith("validate() raised ValueError") and _deleted_ids(inp[1]) > 0
-    if cls == "missing-positions-link-raises":
-        return (failure.what.startswith("validate() raised RuntimeError") and _unlinked_positions(inp[1]) > 0)
     return False
 
 
